@@ -507,6 +507,28 @@ struct Extractor : RecursiveASTVisitor<Extractor> {
 					if(vd->getInit())
 						J.attribute("init", fs.ids[vd->getInit()]);
 					if(vd->isStaticLocal()) J.attribute("static", true);
+					if(auto *dd = dyn_cast<DecompositionDecl>(vd)) {
+						// structured bindings over a class: each binding names one data member of the hidden object
+						J.attributeBegin("bindings");
+						J.arrayBegin();
+						for(auto *bd : dd->bindings()) {
+							J.objectBegin();
+							J.attribute("d", declId(bd));
+							J.attribute("n", bd->getName());
+							if(auto *be = bd->getBinding()) {
+								const Expr *e = be->IgnoreParenImpCasts();
+								if(auto *me = dyn_cast<MemberExpr>(e)) {
+									J.attribute("field", me->getMemberDecl()->getName());
+									J.attribute("md", declId(me->getMemberDecl()));
+									if(auto *rd = dyn_cast<CXXRecordDecl>(me->getMemberDecl()->getDeclContext()))
+										J.attribute("mc", uqName(rd));
+								}
+							}
+							J.objectEnd();
+						}
+						J.arrayEnd();
+						J.attributeEnd();
+					}
 					J.objectEnd();
 				}
 			}
